@@ -25,6 +25,9 @@ type Case struct {
 	// package-info), visited first by the directory walk; it has no imports, is not judged, and must not keep the other
 	// files from being cleaned
 	Bystander string `json:"bystander"` // "" | enum | anntype | pkginfo
+	// Crlf: every file is written with CRLF line ends; NoFinal: without a final line break (every other byte must stay)
+	Crlf    bool `json:"crlf"`
+	NoFinal bool `json:"noFinal"`
 }
 
 type ImportFact struct {
@@ -81,6 +84,12 @@ func one(raw json.RawMessage) interface{} {
 		text, facts := javagen.Render(f, c.Layout)
 		p := filepath.Join(root, filepath.FromSlash(facts.RelPath))
 		os.MkdirAll(filepath.Dir(p), 0o755)
+		if c.NoFinal {
+			text = strings.TrimRight(text, "\n")
+		}
+		if c.Crlf {
+			text = strings.ReplaceAll(text, "\n", "\r\n")
+		}
 		os.WriteFile(p, []byte(text), 0o644)
 		if !javaproj.Selected(f) {
 			continue
@@ -279,7 +288,7 @@ func gen(seed int64, n int, tier string) []interface{} {
 			}
 		}
 		out = append(out, Case{Case: fmt.Sprintf("rand-%d-%d", seed, k), Files: p.Files, Layout: p.Layout,
-			Bystander: []string{"", "", "", "enum", "anntype", "pkginfo"}[r.Intn(6)]})
+			Bystander: []string{"", "", "", "enum", "anntype", "pkginfo"}[r.Intn(6)], Crlf: r.Intn(5) == 0, NoFinal: r.Intn(7) == 0})
 	}
 	return out
 }
